@@ -146,6 +146,8 @@ typedef struct vp_gfiber {
   _Atomic uint64_t sleep_wake_tick;
   _Atomic int last_thread;
   _Atomic uint64_t migrations;
+  _Atomic uint64_t sleep_regs;   // SLEEP_REGISTERED events
+  _Atomic uint64_t sleep_wakes;  // wake-ups that ended a registered sleep
 } vp_gfiber_t;
 
 void vp_ghost_enable(void);
